@@ -634,18 +634,31 @@ impl Recovery {
                 _ => anyhow::bail!("Invalid live segment indices"),
             };
 
-        let nonlive_segments;
+        let mut nonlive_segments;
         let live_segments;
+        // The number of non-live segments which precede the live ones.
+        let nonlive_before;
 
         if let Some((start, end)) = live_segments_indices {
             live_segments = self.candidates.drain(start..=end).collect::<Vec<_>>();
             nonlive_segments = mem::take(&mut self.candidates);
+            nonlive_before = start;
         } else {
             live_segments = Vec::new();
             nonlive_segments = mem::take(&mut self.candidates);
+            nonlive_before = 0;
         }
 
-        for segment in nonlive_segments {
+        // Remove the segments in an order that keeps the IDs of the remaining files contiguous at
+        // every step: the ones after the live range from the newest downwards, then the ones
+        // before it from the oldest upwards. Otherwise a crash in the middle of this loop leaves
+        // a gap in the segment IDs, which the next recovery refuses.
+        let nonlive_after = nonlive_segments.split_off(nonlive_before);
+        for segment in nonlive_after
+            .into_iter()
+            .rev()
+            .chain(nonlive_segments.into_iter())
+        {
             #[cfg(feature = "verif")]
             let _vg = crate::verif::pre_path(
                 "seglog_remove_nonlive",
